@@ -4,9 +4,9 @@ package interp
 
 import (
 	"fmt"
+	"go/types"
 	"os"
 	"os/exec"
-	"go/types"
 	"runtime"
 	"sort"
 	"strings"
@@ -38,25 +38,25 @@ func (e targetRuntimeError) RuntimeError() {}
 
 // Config describes one exploration.
 type Config struct {
-	Prog           *ssa.Program
-	Entry          *ssa.Function
-	Workers        int
-	Solver         SolverSpec
-	QueryTimeoutMs int
-	StepBudget     int64 // SSA instructions per path
-	PathBudget     int64 // completed+pruned paths per exploration
-	MaxViolations  int   // stored per assertion id
-	SampleEvery    int   // keep the replay vector of every k-th completed path (0 = none)
-	MaxSamples     int
-	Stubs          map[string]*ssa.Function // ssa function String() -> replacement
-	InitPkgs       []string                 // packages whose own initialiser statements are executed first
-	Params         map[string]int64         // ndParam values (bounds chosen by the tier)
-	DumpDir        string                   // where queries answered unknown are written
-	Trace          bool
-	Deadline       time.Time
-	VerifyUnsatEvery int   // cross-check every k-th unsat-pruned side with z3 5.1.0 and cvc5 (0 = off)
-	Prefix         []int32 // start exploration at this decision prefix
-	Single         bool    // follow one path only (debugging)
+	Prog             *ssa.Program
+	Entry            *ssa.Function
+	Workers          int
+	Solver           SolverSpec
+	QueryTimeoutMs   int
+	StepBudget       int64 // SSA instructions per path
+	PathBudget       int64 // completed+pruned paths per exploration
+	MaxViolations    int   // stored per assertion id
+	SampleEvery      int   // keep the replay vector of every k-th completed path (0 = none)
+	MaxSamples       int
+	Stubs            map[string]*ssa.Function // ssa function String() -> replacement
+	InitPkgs         []string                 // packages whose own initialiser statements are executed first
+	Params           map[string]int64         // ndParam values (bounds chosen by the tier)
+	DumpDir          string                   // where queries answered unknown are written
+	Trace            bool
+	Deadline         time.Time
+	VerifyUnsatEvery int     // cross-check every k-th unsat-pruned side with z3 5.1.0 and cvc5 (0 = off)
+	Prefix           []int32 // start exploration at this decision prefix
+	Single           bool    // follow one path only (debugging)
 }
 
 // NDValue is one entry of a replay vector: the value an nd* call returned.
@@ -100,6 +100,7 @@ type Result struct {
 	Queries        int64
 	SolverNanos    int64
 	Steps          int64
+	CacheHits      int64 // branch sides decided from an earlier unsat answer on the same path
 	CrossChecked   int64 // unsat answers re-posed to the other solvers
 	CrossDisagree  int64
 	PathsRechecked int64 // completed paths whose final path condition was re-checked satisfiable
@@ -142,25 +143,26 @@ type ndvar struct {
 
 // path is the per-path execution context.
 type path struct {
-	ex         *explorer
-	sv         *solver
-	prefix     []int32
-	decisions  []int32
-	pc         []string
-	nd         []ndvar
-	nameSeq    int
-	steps      int64
-	observed   []string
-	observedSym []obsEntry
-	lastModel  map[string]string
+	ex             *explorer
+	sv             *solver
+	prefix         []int32
+	decisions      []int32
+	pc             []string
+	nd             []ndvar
+	nameSeq        int
+	steps          int64
+	observed       []string
+	observedSym    []obsEntry
+	lastModel      map[string]string
 	modelFromFresh bool
-	assertFail []string
-	expectPan  bool
-	mapPerm    bool
-	defs       map[string]string
-	whereFn    func() string
-	intRanges  map[string][2]int64
-	script     []string
+	assertFail     []string
+	expectPan      bool
+	mapPerm        bool
+	defs           map[string]string
+	whereFn        func() string
+	intRanges      map[string][2]int64
+	unsatCache     map[string]bool
+	script         []string
 }
 
 // fresh returns a name never used before in this solver session (z3 4.8.12 was
@@ -335,12 +337,29 @@ func (p *path) choose(guards []string, exhaustive bool) int {
 	res := p.ex.res
 	var feas []int
 	solverUsed := false
+	// A guard proved unsatisfiable earlier on this path stays unsatisfiable (the path condition only grows).
+	known := 0
+	for _, g := range guards {
+		if g != "" && p.unsatCache[g] {
+			known++
+		}
+	}
 	for k, g := range guards {
 		if g == "" {
 			feas = append(feas, k)
 			continue
 		}
 		solverUsed = true
+		if p.unsatCache[g] {
+			atomic.AddInt64(&res.CacheHits, 1)
+			continue
+		}
+		if exhaustive && len(feas) == 0 && known == len(guards)-1 {
+			// every other option is known infeasible and pc is satisfiable: this one holds
+			feas = append(feas, k)
+			atomic.AddInt64(&res.CacheHits, 1)
+			continue
+		}
 		if exhaustive && k == len(guards)-1 && len(feas) == 0 {
 			// all others infeasible and pc is satisfiable: this one holds
 			feas = append(feas, k)
@@ -352,6 +371,11 @@ func (p *path) choose(guards []string, exhaustive bool) int {
 			feas = append(feas, k)
 			atomic.AddInt64(&res.SolverDecided, 1)
 		case "unsat":
+			if p.unsatCache == nil {
+				p.unsatCache = map[string]bool{}
+			}
+			p.unsatCache[g] = true
+			known++
 			n := atomic.AddInt64(&res.UnsatPruned, 1)
 			atomic.AddInt64(&res.SolverDecided, 1)
 			if ve := p.ex.cfg.VerifyUnsatEvery; ve > 0 && n%int64(ve) == 0 {
